@@ -25,6 +25,7 @@ def pinnedTables : Tables :=
     exeVarTypeOptional := Pinned.exeVarTypeOptional,
     opFallbackAnyName := Pinned.opFallbackAnyName,
     fieldPosAfterLookahead := Pinned.fieldPosAfterLookahead,
+    opErrPosAfterLookahead := Pinned.opErrPosAfterLookahead,
     leafErrNulls := Pinned.leafErrNulls, fastSliceCopies := Pinned.fastSliceCopies }
 
 def main (args : List String) : IO Unit := run pinnedTables args
